@@ -404,6 +404,7 @@ func checkC07(c *Ctx) {
 	c.ruleSizeEquations("K")
 	if ab := c.Fn("K", "efi/signature.(*SignatureList).AppendBytes"); ab != nil {
 		c.ruleUniformSize(ab)
+		c.sameDataChecked(ab)
 	}
 	c.ruleNoAlias("G9.copy")
 	c.ruleDecodeReplaces("G14.replace", func(f *ssa.Function) bool { return strings.Contains(name(f), "efi/signature.") })
@@ -415,6 +416,7 @@ func checkC07(c *Ctx) {
 }
 
 var factHeaderSizeZero = &fact{id: "HeaderSize==0", what: "the list is accepted only with HeaderSize == 0 (so the writer-only SignatureHeader field is empty for every decoded list)",
+	subject: []string{sigPkg + ".SignatureList.HeaderSize"},
 	direct: func(c *Ctx, fn *ssa.Function, ce ir.CondEdge) bool {
 		cmp, ok := ce.Cond.(*ssa.BinOp)
 		if !ok || (cmp.Op != token.EQL && cmp.Op != token.NEQ) {
@@ -502,12 +504,14 @@ func checkC08(c *Ctx) {
 	c.RuleT("", in, map[string]bool{"T1": true, "T2": true})
 	c.ruleBareRead("G10.fullread", in)
 	e := c.accept()
-	e.Require("A-d", rl, []*fact{factKnownType, factWholeEntries})
+	e.Require("A-d", rl, []*fact{factKnownType, factWholeEntries, factHeaderSizeZero})
 	// A-d2: SHA-256 lists only with Size == 48
 	c.sha256Gate(rl)
 	// database decoder: the only success exit is the clean end
 	e.Require("G4", db, []*fact{factCleanEnd})
 	c.eofProvenance(db, rl)
+	c.ruleEOFNotSuccess("G4.eofok", rl, db)
+	c.R.Floor("G4.eofok", 1)
 	c.usedResults("G2.kept", db, rl)
 	c.scopeGuard("scope", len(scope), 4, "library functions reachable from the database decoder")
 	c.R.Floor("A-d.known-type", 1)
@@ -1121,11 +1125,176 @@ func (c *Ctx) ruleDecodeReplaces(rule string, in func(*ssa.Function) bool) int {
 			}
 		}
 		if stores == 0 {
-			c.R.Infof(rule, name(fn), "receiver", c.Pos(fn.Pos()), "the decoder fills the fields of its receiver one by one (no whole-value store): not judged by this rule")
+			// field by field: a field whose new value is built from its own previous
+			// content (append to itself) accumulates across decodes
+			fieldAccum := ""
+			nf := 0
+			for _, di := range dv.order {
+				st, ok := di.i.(*ssa.Store)
+				if !ok {
+					continue
+				}
+				fa, isFA := st.Addr.(*ssa.FieldAddr)
+				if !isFA {
+					continue
+				}
+				if r := dv.resolve(fa.X, di.fr); r.fr != dv.root || r.v != ssa.Value(recv) {
+					continue
+				}
+				nf++
+				for v := range c.sliceOf(st.Val) {
+					ld, isLd := v.(*ssa.UnOp)
+					if !isLd || ld.Op != token.MUL {
+						continue
+					}
+					if fb, ok := ld.X.(*ssa.FieldAddr); ok && fb.Field == fa.Field {
+						if r := dv.resolve(fb.X, di.fr); r.fr == dv.root && r.v == ssa.Value(recv) {
+							fieldAccum = ir.FieldID(fa) + " at " + c.IPos(st)
+						}
+					}
+				}
+			}
+			if fieldAccum != "" {
+				c.R.Violf(rule, name(fn), "receiver", c.Pos(fn.Pos()), "the decoder replaces the receiver's value with what it decoded", "the value stored into field "+fieldAccum+" is built from the field's previous content: decoding into a value that is already in use appends instead of replacing")
+				continue
+			}
+			c.R.Infof(rule, name(fn), "receiver", c.Pos(fn.Pos()), "the decoder fills the fields of its receiver one by one (no whole-value store): fields it does not assign keep their previous content, which this rule does not judge")
 			continue
 		}
 		c.R.Check(accum == "" || reset, rule, name(fn), "receiver", c.Pos(fn.Pos()),
 			"the decoder replaces the receiver's value with what it decoded", "the value stored into the receiver at "+accum+" is built from the receiver's previous content: decoding into a value that is already in use appends instead of replacing")
 	}
 	return n
+}
+
+// ruleEOFNotSuccess (G4.eofok): inside the decoder of one list (everything the
+// list decoder calls, function literals included) an end of input met while
+// reading from the caller's stream never turns into a successful return: the
+// list header announced the bytes, so running out of them is a truncated list.
+// An EOF of an in-memory reader over bytes that were read in full is the end
+// of that buffer and is not judged.
+func (c *Ctx) ruleEOFNotSuccess(rule string, rl *ssa.Function, skip ...*ssa.Function) {
+	consumers := c.consumerFuncs()
+	skipped := map[*ssa.Function]bool{}
+	for _, s := range skip {
+		skipped[s] = true
+	}
+	var fns []*ssa.Function
+	for _, g := range c.cone(rl) {
+		if skipped[g] {
+			continue
+		}
+		fns = append(fns, withAnon(g)...)
+	}
+	// where a reader value comes from: "input" (a reader parameter / captured reader,
+	// possibly wrapped), "memory" (a reader over local bytes), "" unknown
+	var origin func(v ssa.Value, depth int) string
+	origin = func(v ssa.Value, depth int) string {
+		if depth > 10 || v == nil {
+			return ""
+		}
+		switch x := ir.StripIface(v).(type) {
+		case *ssa.Parameter, *ssa.FreeVar:
+			if isStreamType(x.Type()) || isIfaceType(x.Type()) {
+				return "input"
+			}
+		case *ssa.Call:
+			switch ir.CallID(x) {
+			case "io.LimitReader", "bufio.NewReader", "io.TeeReader", "bufio.NewReaderSize", "io.NewSectionReader":
+				return origin(x.Call.Args[0], depth+1)
+			case "bytes.NewReader", "bytes.NewBuffer", "bytes.NewBufferString", "strings.NewReader":
+				return "memory"
+			}
+		case *ssa.UnOp:
+			if x.Op == token.MUL {
+				if a, ok := x.X.(*ssa.Alloc); ok {
+					out := ""
+					for _, r := range *a.Referrers() {
+						if st, ok := r.(*ssa.Store); ok && st.Addr == ssa.Value(a) {
+							o := origin(st.Val, depth+1)
+							if out == "" || o == "input" {
+								out = o
+							}
+						}
+					}
+					return out
+				}
+				return origin(x.X, depth+1)
+			}
+		case *ssa.Phi:
+			out := ""
+			for _, e := range x.Edges {
+				if o := origin(e, depth+1); o == "input" || out == "" {
+					out = o
+				}
+			}
+			return out
+		case *ssa.MakeInterface:
+			return origin(x.X, depth+1)
+		case *ssa.Alloc:
+			if ir.NamedTypeID(x.Type()) == "bytes.Buffer" || ir.NamedTypeID(x.Type()) == "bytes.Reader" {
+				return "memory"
+			}
+		}
+		return ""
+	}
+	counts := map[string]int{}
+	seenIf := map[*ssa.If]bool{}
+	n := 0
+	for _, g := range fns {
+		for _, ce := range ir.CondEdges(g) {
+			ev, ok := isEOFTest(ce.Cond)
+			if !ok || ce.If == nil || seenIf[ce.If] {
+				continue
+			}
+			// the edge on which the error matches io.EOF
+			matches := ce.Truth
+			if bo, isB := ce.Cond.(*ssa.BinOp); isB && bo.Op == token.NEQ {
+				matches = !matches
+			}
+			if !matches {
+				continue
+			}
+			seenIf[ce.If] = true
+			n++
+			key := ordinalKey(counts, name(g)+":eof-branch")
+			construct := strings.TrimPrefix(key, name(g)+":")
+			succeeds := ""
+			for r, cl := range retClassesFrom(g, g.Blocks[ce.Edge.To], ce.Edge.From) {
+				if cl == "success" {
+					succeeds = c.IPos(r)
+				}
+			}
+			if succeeds == "" {
+				c.R.Okf(rule, name(g), construct, c.IPos(ce.If), "no successful return is reachable on the branch where the error matches io.EOF")
+				continue
+			}
+			// which read produced the error
+			src := ""
+			for v := range c.sliceOf(ev) {
+				call, isC := v.(*ssa.Call)
+				if !isC || !c.isConsumingCall(call, consumers) {
+					continue
+				}
+				for _, a := range ir.CallArgs(call) {
+					if isStreamType(ir.StripIface(a).Type()) || isIfaceType(a.Type()) {
+						if o := origin(a, 0); o == "input" || src == "" {
+							src = o
+						}
+					}
+				}
+			}
+			switch src {
+			case "input":
+				c.R.Violf(rule, name(g), construct, c.IPos(ce.If), "an end of input inside a list is an error", "on the branch where the error of a read from the caller's stream matches io.EOF the function returns successfully at "+succeeds+": a list cut short at that point is accepted with what was read so far")
+			case "memory":
+				c.R.Okf(rule, name(g), construct, c.IPos(ce.If), "the io.EOF tested is the end of an in-memory reader over bytes already read")
+			default:
+				c.R.Infof(rule, name(g), construct, c.IPos(ce.If), "not decided for this shape: a successful return follows an io.EOF whose reader is not identified")
+			}
+		}
+	}
+	if n == 0 {
+		c.R.Okf(rule, name(rl), "scan", c.Pos(rl.Pos()), "the list decoder and its helpers contain no test for io.EOF")
+	}
 }
